@@ -170,6 +170,13 @@ def correspond(ctx, scale):
                         q = FSQ(levels, num_codebooks=ncb, preserve_symmetry=sym)
                         q.train(train)
                         out, idx = q(z)
+                        # the same values as a dense permuted view of the caller's tensor: same codes, same indices
+                        if z.ndim == 3:
+                            for zv in (z.transpose(0, 1).contiguous().transpose(0, 1), z.permute(2, 0, 1).contiguous().permute(1, 2, 0)):
+                                out_v, idx_v = q(zv)
+                                if not (torch.equal(out_v, out) and torch.equal(idx_v, idx)):
+                                    raise AssertionError(f'a permuted view of the same input values quantizes differently ({int((idx_v != idx).sum())} of {idx.numel()} indices)')
+                            dist['fsq_permuted_views'] = dist.get('fsq_permuted_views', 0) + 1
                         dec_out = q.indices_to_codes(idx)
                         if not torch.equal(dec_out, out):
                             raise AssertionError('indices_to_codes(indices) != forward output (bit-exact)')
@@ -260,6 +267,10 @@ def correspond(ctx, scale):
                     x[0, 1] = -0.0
                     x[0, 2] = 1e-38
                     x[0, 3] = -1e-38
+                    if (d + ncb) % 2 == 1:
+                        # the same values as a dense permuted view of the caller's tensor (time-major / channel-first activations viewed batch-first, channel-last)
+                        x = x.transpose(0, 1).contiguous().transpose(0, 1) if sph else x.permute(2, 0, 1).contiguous().permute(1, 2, 0)
+                        dist['permuted_view_inputs'] = dist.get('permuted_view_inputs', 0) + 1
                     try:
                         q = LFQ(codebook_size=2 ** d, codebook_scale=sc, spherical=sph, num_codebooks=ncb, dim=d * ncb).eval()
                         out, idx, _ = q(x)
